@@ -11,7 +11,7 @@ from build import wire_opts, BuildError  # noqa
 from gen_prog import Gen, gen_context, I, B  # noqa
 import c18_gen as G  # noqa
 
-PROOF_FILES = ["Proofs/C18Text.v", "Proofs/C18Fuel.v", "Proofs/C18Sem.v", "Proofs/C18Stream.v"]
+PROOF_FILES = ["Proofs/C18Text.v", "Proofs/C18Fuel.v", "Proofs/C18Sem.v", "Proofs/C18Commute.v", "Proofs/C18Stream.v"]
 
 F_NAME = "c18-subroutine-name-linebreak-injects-code"
 F_BLOCK = "c18-annotation-only-block-changes-branch-layout"
